@@ -34,7 +34,7 @@ def isna(x): return x is None or x is pd.NA or (isinstance(x, float) and math.is
 
 def canon_result(res):
     nodes, refs, lk = res["nodes"], res["references"], res["lookup_df"]
-    uniq = list(lk["uniques"])
+    uniq = res["uniq_map"] if "uniq_map" in res else list(lk["uniques"])       # id -> NodeId (a parse result: ids are positions)
     rows = []; norm = []
     for _, r in nodes.iterrows():
         attrs = []
@@ -58,7 +58,7 @@ def canon_result(res):
         triples.append([nid_sx(uniq[int(i)]) for i in ids])
     models = [[uaconv.opt(m.get("uri")), uaconv.opt(m.get("publication_date")), uaconv.opt(m.get("version")),
                [[uaconv.opt(q.get("uri")), uaconv.opt(q.get("publication_date")), uaconv.opt(q.get("version"))] for q in m.get("required_models", [])]] for m in res["models"]]
-    return [list(res["namespaces"]), rows, triples, canon_sx(models), [nid_sx(u) for u in uniq], norm, nrefs]
+    return [list(res["namespaces"]), rows, triples, canon_sx(models), [nid_sx(u) for u in ([uniq[k] for k in sorted(uniq)] if isinstance(uniq, dict) else uniq)], norm, nrefs]
 
 def impl_parse(workdir, files, caller=None, order=None):
     """files: [(name, xml text)]; returns ['ok', canonical] / ['err', class]"""
